@@ -543,7 +543,11 @@ func (r *Rng) jvMutate(root *jv) *jv {
 			if n.kind == 'o' {
 				if r.chance(1, 2) {
 					n.keys = append(n.keys, "crs")
-					crs := []string{`{"type":"name","properties":{"name":"EPSG:4326"}}`, `null`, `5`, `{"type":5}`, `{"properties":[1]}`, `{"properties":{"a":1e999}}`, `{"TYPE":"x","extra":[]}`}[r.Intn(7)]
+					crs := []string{`{"type":"name","properties":{"name":"EPSG:4326"}}`, `null`, `5`, `{"type":5}`, `{"properties":[1]}`, `{"properties":{"a":1e999}}`, `{"TYPE":"x","extra":[]}`,
+						`{"type":"name","properties":{"name":"WGS84"}}`, `{"type":"name","properties":{"name":""}}`, `{"type":"name","properties":{"name":":"}}`,
+						`{"type":"name","properties":{"name":"urn:ogc:def:crs:OGC:1.3:CRS84"}}`, `{"type":"name","properties":{"name":"EPSG:"}}`, `{"type":"name","properties":{"name":"EPSG:x"}}`,
+						`{"type":"name","properties":{"name":"EPSG:99999999999999999999"}}`, `{"type":"name","properties":{"name":5}}`, `{"type":"name","properties":{}}`, `{"type":"name","properties":null}`,
+						`{"type":"name"}`, `{"type":"link","properties":{"href":"http://x/y","type":"proj4"}}`, `{"type":"EPSG","properties":{"code":4326}}`, `{"type":"","properties":{"name":"a:b:c"}}`}[r.Intn(21)]
 					v, _ := jvParse([]byte(crs))
 					n.items = append(n.items, v)
 				} else if !contains(n.keys, "bbox") {
@@ -662,6 +666,11 @@ func genC07(r *Rng, e *Emitter, n int) {
 		{"geom", `{"type":"GeometryCollection","geometries":{}}`}, {"geom", `{"TYPE":"Point","COORDINATES":[1,2]}`},
 		{"geom", `{"type":"Point","type":"LineString","coordinates":[[1,2],[3,4]]}`}, {"geom", `{"type":"Point","coordinates":[1e999,2]}`},
 		{"geom", `{"type":"Point","coordinates":"x"}`}, {"geom", `{"type":5}`}, {"geom", `{"type":"Point","coordinates":[1,2],"crs":5}`},
+		{"geom", `{"type":"Point","coordinates":[1,2],"crs":{"type":"name","properties":{"name":"WGS84"}}}`},
+		{"geom", `{"type":"LineString","coordinates":[[1,2],[3,4]],"crs":{"type":"name","properties":{"name":""}}}`},
+		{"geom", `{"type":"GeometryCollection","geometries":[{"type":"Point","coordinates":[1,2],"crs":{"type":"name","properties":{"name":"CRS84"}}}]}`},
+		{"feat", `{"type":"Feature","geometry":{"type":"Point","coordinates":[1,2],"crs":{"type":"name","properties":{"name":"CRS84"}}},"properties":null}`},
+		{"geom", `{"type":"Point","coordinates":[1,2],"crs":{"type":"name","properties":{"name":"EPSG:4326"}}}`},
 		{"geom", `{"type":"Point","coordinates":[1,2]} x`}, {"geom", "\xff"}, {"geom", ``},
 		{"feat", `null`}, {"feat", `{}`}, {"feat", `{"type":"Feature"}`}, {"feat", `{"type":"Feature","geometry":null,"properties":null}`},
 		{"feat", `{"type":"Feature","id":7,"geometry":{"type":"Point","coordinates":[1,2]},"properties":{"a":1}}`},
